@@ -138,6 +138,9 @@ func networks() []*netSpec {
 		out = append(out, mkNet(iv, 256, placements[0]))
 		out = append(out, mkNet(iv, 256, placements[1]))
 	}
+	// large-work sets: cumulative work and difficulty cross the 64-bit limb boundaries of the Work representation
+	// (2^64 and 2^128) within a few blocks of the v2 eras (headers are not mined at these difficulties)
+	out = append(out, mkNet(600, 194, placements[0]), mkNet(10, 130, placements[1]), mkNet(10, 66, placements[0]))
 	for i, ns := range out {
 		ns.idx = i
 	}
@@ -150,6 +153,7 @@ var quickNets = map[string]bool{
 	"c13-600s-2^248-compactA": true, "c13-600s-2^224-compactB": true, "c13-600s-2^224-longPreOak": true, "c13-600s-2^256-compactA": true,
 	"c13-10s-2^248-compactB": true, "c13-10s-2^224-compactA": true, "c13-10s-2^256-compactB": true,
 	"c13-10s-2^248-compactC": true,
+	"c13-600s-2^194-compactA": true, "c13-10s-2^130-compactB": true,
 }
 
 func netByName(name string) *netSpec {
